@@ -59,7 +59,12 @@ Good == PathsTo(Tree, <<>>)
 (* systematic breakages of a path *)
 DropAt(p, k) == SubSeq(p, 1, k - 1) \o SubSeq(p, k + 1, Len(p))
 DupAt(p, k)  == SubSeq(p, 1, k) \o SubSeq(p, k, Len(p))
+(* the qualifier after the '=' at position k removed (up to the next '|' or the end) *)
+EmptyQual(p, k) == LET e == Cspn(p, k + 1, {cBar}) IN SubSeq(p, 1, k) \o SubSeq(p, e, Len(p))
+JunkQual(p, k)  == LET e == Cspn(p, k + 1, {cBar}) IN SubSeq(p, 1, e - 1) \o <<120>> \o SubSeq(p, e, Len(p))
 Broken(p) ==
+  {EmptyQual(p, k) : k \in {k \in 1..Len(p) : p[k] = cEq}} \cup
+  {JunkQual(p, k) : k \in {k \in 1..Len(p) : p[k] = cEq}} \cup
   {DropAt(p, k) : k \in {k \in 1..Len(p) : p[k] \in {cBar, cEq, cQ, cBsl}}} \cup
   {DupAt(p, k)  : k \in {k \in 1..Len(p) : p[k] \in {cEq, cQ}}} \cup
   {<<cBar>> \o p, p \o <<cBar>>, <<cEq>> \o p, p \o <<cEq>>, p \o <<cEq, 57>>, p \o <<cEq, 97>>,
